@@ -246,7 +246,7 @@ class Runner:
             p = ev[5]
             if when == "adopted":
                 # a scheduler adopted a running process of an earlier run: that process is the target
-                if not (p.get("where") == "aio_submit" and p.get("new") == "RUNNING") or (x is not None and p.get("x") != x):
+                if not p.get("adopt") or (x is not None and p.get("x") != x):
                     return False
                 alive = [q.pid for q in w.procs.values() if q.kind == "job" and q.alive and q.x == p.get("x")]
                 if not alive:
